@@ -1,6 +1,6 @@
 (* C05 - Restriction fixes variables to constants and removes them from the inputs. *)
 From BBF Require Import Base.Prelude Base.Names Base.Bits Spec.Sem
-     Model.Expr Model.Table Proofs.ExprProofs Proofs.TableProofs.
+     Model.Expr Model.Table Model.LibBdd Model.Bdd Proofs.ExprProofs Proofs.TableProofs Proofs.DdProofs Proofs.BddProofs Proofs.BddOps.
 
 Theorem C05_expr_sem : forall e rho v, sem v (e_restrict e rho) = sem (override v rho) e.
 Proof. exact sem_restrict. Qed.
@@ -29,6 +29,19 @@ Print Assumptions C05_table_wf.
 Theorem C05_table_empty : forall t, wf_table t -> t_restrict t [] = t.
 Proof. exact t_restrict_nil. Qed.
 Print Assumptions C05_table_empty.
+
+Theorem C05_bdd : forall dbg b rho, wf_bdd b ->
+  exists r, b_restrict dbg b rho = Ok r /\ wf_bdd r /\ b_inputs r = set_diff (b_inputs b) (keys rho) /\
+            forall v, bsem r v = bsem b (override v rho).
+Proof. exact b_restrict_spec. Qed.
+Print Assumptions C05_bdd.
+
+(* the precondition of the unsafe prune is established, not assumed *)
+Theorem C05_prune_ok : forall dbg b new, wf_bdd b -> sset new -> incl new (b_inputs b) ->
+  (forall i x, occurs i (b_root b) -> nth_error (b_inputs b) i = Some x -> In x new) ->
+  exists b', prune dbg b new = Ok b' /\ wf_bdd b' /\ b_inputs b' = new /\ forall v, bsem b' v = bsem b v.
+Proof. exact prune_ok. Qed.
+Print Assumptions C05_prune_ok.
 
 (* non-vacuity: restricting a 3-input table by one of its inputs and a foreign variable *)
 Example C05_table_example :
